@@ -30,24 +30,24 @@ Print Assumptions C11_pretty_text_pinned_refuted.
    part of the document in memory is what it was, up to the generator stamp ([mask (stamp x) = mask x]); manifest.rdf
    is the one part save reconciles with the manifest on purpose *)
 Theorem C11_save_pure : forall (xml bytes kid : Type) (ser : xml -> bytes) (par : bytes -> xml) (pretty stamp : xml -> xml)
-    (entries : xml -> mentries) (kids : xml -> list kid) (mime : bytes -> mtype) (rdf0 : bytes) (mask : xml -> xml),
+    (entries : xml -> mentries) (kids : xml -> list kid) (mime : bytes -> mtype) (rdf0 : bytes) (proj : Type) (mask : xml -> proj),
   (forall x, mask (stamp x) = mask x) ->
   forall (fs : fsys bytes kid) (d : document xml bytes) (t : target) (pk : packaging) (pty : bool) (fs' : fsys bytes kid) (d' : document xml bytes),
   WFd xml bytes kid fs d ->
   d_save xml bytes kid ser par pretty stamp entries kids mime rdf0 FIXED fs d t pk pty = (fs', d', true) ->
-  forall n, (n <> RDF)%Z -> view xml bytes kid par mask fs d' n = view xml bytes kid par mask fs d n.
+  forall n, (n <> RDF)%Z -> view xml bytes kid par proj mask fs d' n = view xml bytes kid par proj mask fs d n.
 Proof. exact save_pure. Qed.
 Print Assumptions C11_save_pure.
 
 (* what a save writes is the document in memory, whatever was saved before and however: hence save;save and
    save pretty;save plain write the same content (each equals the unchanged memory; pretty up to [mask]) *)
 Theorem C11_save_writes_memory : forall (xml bytes kid : Type) (ser : xml -> bytes) (par : bytes -> xml) (pretty stamp : xml -> xml)
-    (entries : xml -> mentries) (kids : xml -> list kid) (mime : bytes -> mtype) (rdf0 : bytes) (mask : xml -> xml),
+    (entries : xml -> mentries) (kids : xml -> list kid) (mime : bytes -> mtype) (rdf0 : bytes) (proj : Type) (mask : xml -> proj),
   (forall x, par (ser x) = x) ->
   forall (fs : fsys bytes kid) (d : document xml bytes) (t : target) (pk : packaging) (pty : bool) (fs' : fsys bytes kid) (d' : document xml bytes),
   WFd xml bytes kid fs d -> pk <> PXml -> (pty = true -> forall x, mask (pretty x) = mask x) ->
   d_save xml bytes kid ser par pretty stamp entries kids mime rdf0 FIXED fs d t pk pty = (fs', d', true) ->
-  forall n, file_view xml bytes kid par mask (lookup (tgt_id t) fs') n = view xml bytes kid par mask fs d' n.
+  forall n, file_view xml bytes kid par proj mask (lookup (tgt_id t) fs') n = view xml bytes kid par proj mask fs d' n.
 Proof. exact save_file_is_memory. Qed.
 Print Assumptions C11_save_writes_memory.
 
@@ -62,9 +62,25 @@ Theorem C11_pretty_save_roundtrip_structure : forall (bytes kid : Type) (ser : n
   forall t pk pty fs' d' c, pk <> PXml ->
   d_save node bytes kid ser par (pretty textual crefill true) stamp entries kids mime rdf0 FIXED (fst s) (snd s) t pk pty = (fs', d', true) ->
   c_open bytes kid fs' (tgt_id t) false = Some c ->
-  forall n, view node bytes kid par skeleton fs' (mkD c []) n = view node bytes kid par skeleton (fst s) d' n.
+  forall n, view node bytes kid par node skeleton fs' (mkD c []) n = view node bytes kid par node skeleton (fst s) d' n.
 Proof. exact pretty_roundtrip_skeleton. Qed.
 Print Assumptions C11_pretty_save_roundtrip_structure.
+
+(* C03_roundtrip for pretty saves with NO hypothesis on the projection: [reading t] = (structure and attributes, ODF reading of
+   every paragraph and heading of t) — the projection of C11 — is what a pretty (or plain) save in zip / folder followed by
+   re-opening gives back, part by part, for every reachable state; from C11_pretty_text and C11_pretty_attrs_skeleton *)
+Theorem C11_pretty_save_roundtrip : forall (bytes kid : Type) (ser : node -> bytes) (par : bytes -> node) (stamp : node -> node)
+    (entries : node -> mentries) (with_entries : mentries -> node -> node) (kids : node -> list kid) (mime : bytes -> mtype)
+    (mime_bytes : mtype -> bytes) (rdf0 : bytes),
+  (forall x, par (ser x) = x) ->
+  forall (s0 : fsys bytes kid * document node bytes) os, SInv node bytes kid s0 ->
+  let s := run node bytes kid ser par (pretty textual crefill true) stamp entries with_entries kids mime mime_bytes rdf0 FIXED s0 os in
+  forall t pk pty fs' d' c, pk <> PXml ->
+  d_save node bytes kid ser par (pretty textual crefill true) stamp entries kids mime rdf0 FIXED (fst s) (snd s) t pk pty = (fs', d', true) ->
+  c_open bytes kid fs' (tgt_id t) false = Some c ->
+  forall n, view node bytes kid par (node * list str) reading fs' (mkD c []) n = view node bytes kid par (node * list str) reading (fst s) d' n.
+Proof. exact pretty_roundtrip_reading. Qed.
+Print Assumptions C11_pretty_save_roundtrip.
 
 (* F15, memory half, on the pinned code: a pretty save changes the document in memory *)
 Theorem C11_save_pure_pinned_refuted : exists fs d t n,
